@@ -19,7 +19,7 @@ def items(tier):
     out.append({"kind": "pl", "n": 3, "t": "(2,)"})
     out.append({"kind": "pl", "n": 1, "t": "scalar"})
     for sc, ec in CFGS:
-        for points in ("none", "int2", "int3", "array"):
+        for points in ("none", "int2", "int3", "int4", "int6", "array"):   # int k below, equal to and above the number of scores
             out.append({"kind": "tam", "sc": sc, "ec": ec, "P": 2, "N": 2 if tier == "quick" else 3, "points": points, "metric": "topr"})
         out.append({"kind": "tam", "sc": sc, "ec": ec, "P": 2, "N": 1, "points": "none", "metric": "callable"})
     return out
